@@ -337,6 +337,8 @@ def run(run: Run):
         check_region(run, t2, "async", nodes2, tree2, env, maxlen)
     signature(run, env)
     run.not_decided.append("that Method._fields_mapping orders keys by first occurrence in the method_signature annotations (stage 1; generator function over an OrderedDict - outside pyvc's subset, covered by the native replay only)")
+    run.native_standin("props.C05_native", "scenarios")
+
 
 
 def falsify(run, group, info):
